@@ -64,7 +64,7 @@ fn simple_labels() -> Vec<Lab> {
 }
 
 /// Concrete calls that build the graph of a case.
-fn build_calls(case: &DiCase) -> (Cfg, Vec<Call>) {
+fn build_calls(case: &DiCase, allow_big: bool) -> (Cfg, Vec<Call>) {
     if let Some(hs) = &case.hist {
         let cfg = gen::cfg_of(hs);
         let profiles = [Profile::GcOrders, Profile::Overwrite, Profile::Queries];
@@ -84,6 +84,14 @@ fn build_calls(case: &DiCase) -> (Cfg, Vec<Call>) {
             }
         }
         return (cfg, calls);
+    }
+    // one graph in 16 is BIG (65..200 vertices in chains of 16 linked across groups, plus
+    // generated extra edges between grouped vertices), one in 16 is DENSE (18..20 vertices,
+    // every vertex with N = 16 labels, the smallest label forming a ring)
+    match case.variant % 16 {
+        3 if allow_big => return build_big(case),
+        7 if allow_big => return build_dense(case),
+        _ => {}
     }
     let n = gen::pick_n(case.n_sel);
     let cap = gen::pick_cap(case.cap_sel).max(case.verts.len() + 2);
@@ -134,6 +142,91 @@ fn build_calls(case: &DiCase) -> (Cfg, Vec<Call>) {
         if r.valid(&c) {
             r.step(&c);
             calls.push(c);
+        }
+    }
+    (cfg, calls)
+}
+
+fn push_valid(r: &mut Runner, calls: &mut Vec<Call>, c: Call) {
+    if r.valid(&c) {
+        r.step(&c);
+        calls.push(c);
+    }
+}
+
+fn build_big(case: &DiCase) -> (Cfg, Vec<Call>) {
+    let n = [2usize, 3, 4, 16][case.n_sel as usize % 4];
+    let total = 65 + (case.pred as usize % 136).min(200 - 65);
+    let cfg = Cfg { n, cap: if case.cap_sel & 1 == 0 { 256 } else { 700 } };
+    let mut r = Runner::new(cfg);
+    let mut calls = vec![];
+    let stride = if cfg.cap == 700 && case.cap_sel & 2 == 2 { 3 } else { 1 };
+    let id = |i: usize| i * stride;
+    for i in 0..total {
+        push_valid(&mut r, &mut calls, Call::Add(id(i)));
+    }
+    // chains of 16 inside one group each
+    for i in 1..total {
+        if i % 16 != 0 {
+            push_valid(&mut r, &mut calls, Call::Bind { a: id(i - 1), b: id(i), l: Lab::Alpha(0), parsed: false });
+        }
+    }
+    // link the chains (both ends grouped: cross-group edges)
+    for i in (16..total).step_by(16) {
+        push_valid(&mut r, &mut calls, Call::Bind { a: id(i - 1), b: id(i), l: Lab::Alpha(0), parsed: false });
+    }
+    // extra edges: back and cross edges between arbitrary vertices (grouped already)
+    for (k, (f, t, l)) in case.edges.iter().enumerate() {
+        let a = id((*f as usize * 7 + k * 13) % total);
+        let b = id((*t as usize * 11 + k * 5) % total);
+        let lab = Lab::Alpha(1 + (*l as u64 % (n as u64 - 1).max(1)));
+        push_valid(&mut r, &mut calls, Call::Bind { a, b, l: lab, parsed: false });
+    }
+    // a back edge into the middle of every chain from its end (deep re-visits)
+    for i in (15..total).step_by(16) {
+        let target = id(i - (case.variant as usize % 15));
+        push_valid(&mut r, &mut calls, Call::Bind { a: id(total - 1), b: target, l: Lab::Alpha(1), parsed: false });
+        push_valid(&mut r, &mut calls, Call::Bind { a: id(i), b: id(i / 2), l: Lab::Str("back".into()), parsed: false });
+    }
+    for (i, (_, d)) in case.verts.iter().enumerate() {
+        if d % 3 == 0 {
+            push_valid(&mut r, &mut calls, Call::Put(id((i * 9) % total), data_bytes(u16::from(*d) << 8, i as u16)));
+        }
+    }
+    (cfg, calls)
+}
+
+fn build_dense(case: &DiCase) -> (Cfg, Vec<Call>) {
+    let n = 16;
+    let total = 18 + (case.pred as usize % 3);
+    let cfg = Cfg { n, cap: 24 + (case.cap_sel as usize % 3) * 100 };
+    let mut r = Runner::new(cfg);
+    let mut calls = vec![];
+    for i in 0..total {
+        push_valid(&mut r, &mut calls, Call::Add(i));
+    }
+    // two groups: 0..15 and the rest
+    for i in 1..total {
+        if i != 16 {
+            push_valid(&mut r, &mut calls, Call::Bind { a: i - 1, b: i, l: Lab::Alpha(0), parsed: false });
+        }
+    }
+    if total > 17 {
+        push_valid(&mut r, &mut calls, Call::Bind { a: 15, b: 16, l: Lab::Alpha(0), parsed: false });
+    }
+    push_valid(&mut r, &mut calls, Call::Bind { a: total - 1, b: 0, l: Lab::Alpha(0), parsed: false });
+    // every vertex gets all 16 labels; the other 15 point at generated targets (often vertex 0)
+    for i in 0..total {
+        for k in 1..16u64 {
+            let sel = case.edges.get((i * 15 + k as usize) % case.edges.len().max(1)).map_or(0, |e| e.0 as usize);
+            let target = if sel % 3 == 0 { (i + sel) % total } else { 0 };
+            let target = if target == i { (i + 1) % total } else { target };
+            push_valid(&mut r, &mut calls, Call::Bind { a: i, b: target, l: Lab::Alpha(k), parsed: false });
+        }
+    }
+    for (i, (_, d)) in case.verts.iter().enumerate().take(total) {
+        if d % 2 == 0 {
+            push_valid(&mut r, &mut calls, Call::Put(i % total, data_bytes(u16::from(*d) << 8, i as u16)));
         }
     }
     (cfg, calls)
@@ -382,7 +475,10 @@ fn check_printers(r: &Runner, st: &mut Stats) -> Option<Failure> {
     let fail = |kind: &str, v: usize, d: String| Some(Failure { prop: "C20".into(), kind: kind.into(), step: v, detail: d });
     let m = &r.m;
     let all = |_: usize, _: usize, _: &Lab| true;
-    for v in m.alive() {
+    let alive = m.alive();
+    // every present start vertex — for big graphs (> 40 vertices) a fixed sample of 16 starts
+    let stride = if alive.len() > 40 { alive.len().div_ceil(16) } else { 1 };
+    for v in alive.iter().copied().step_by(stride) {
         st.evals += 1;
         // inspect
         let txt = match catch_unwind(AssertUnwindSafe(|| r.g.inspect(v))) {
@@ -736,7 +832,7 @@ impl Engine for DiEngine {
         di_strategy(true)
     }
     fn run(&self, case: &DiCase) -> CaseReport {
-        let (cfg, calls) = build_calls(case);
+        let (cfg, calls) = build_calls(case, self.prop != "C13");
         let conc = DiConcrete { cfg, calls, pred: case.pred, rate: case.rate, variant: case.variant };
         let mut st = Stats::default();
         let (failure, r) = self.check(&conc, &mut st);
@@ -750,6 +846,12 @@ impl Engine for DiEngine {
             events.push("graph.from_history_with_collections");
         } else {
             events.push("graph.from_digraph_builder");
+        }
+        if alive.len() >= 65 {
+            events.push("graph.big_65plus_vertices");
+        }
+        if alive.len() >= 18 && alive.iter().filter(|v| m.get(**v).edges.len() == 16).count() >= 17 {
+            events.push("graph.dense_17plus_full_vertices");
         }
         if alive.iter().any(|v| m.get(*v).edges.iter().any(|(_, t)| !m.present(*t))) {
             events.push("graph.dangling_edge");
@@ -798,7 +900,7 @@ impl Engine for DiEngine {
         }
     }
     fn render(&self, case: &DiCase) -> Value {
-        let (cfg, calls) = build_calls(case);
+        let (cfg, calls) = build_calls(case, self.prop != "C13");
         let mut s = render_calls(cfg, &calls);
         if s.len() > 1400 {
             s = s.chars().take(1400).collect::<String>() + " …";
